@@ -137,6 +137,12 @@ pub enum Op {
     Import(ScryptoValue),
     /// Push a raw handle number as a Handle slot (to use a handle number obtained elsewhere).
     RawHandle(u32),
+    // ---- appended (vf-eng-e) ----
+    /// End the script tidily: every node held in a slot that this frame can still see and that is
+    /// a proof is dropped (errors ignored), then every such node that is a bucket is returned as
+    /// `Vec<Own>` (so that nothing dangles when calls returned buckets / proofs the script could
+    /// not name in advance). Uses `get_blueprint_id` / `call_function` only.
+    ReturnLive,
 }
 
 #[derive(ScryptoSbor, Clone, Debug, PartialEq, Eq)]
@@ -546,6 +552,31 @@ fn run_ops<Y: SystemApi<RuntimeError>>(m: &mut Machine, ops: &[Op], api: &mut Y)
             }
             Op::RawHandle(h) => {
                 m.slots.push(Slot::Handle(*h));
+            }
+            Op::ReturnLive => {
+                let mut seen: Vec<NodeId> = Vec::new();
+                for s in &m.slots {
+                    if let Slot::Node(r) = s {
+                        if !r.0.is_global() && !seen.contains(&r.0) {
+                            seen.push(r.0);
+                        }
+                    }
+                }
+                let mut live: Vec<(NodeId, String)> = Vec::new();
+                for id in seen {
+                    if let Ok(bp) = api.get_blueprint_id(&id) {
+                        if bp.package_address == RESOURCE_PACKAGE {
+                            live.push((id, bp.blueprint_name));
+                        }
+                    }
+                }
+                for (id, bp) in &live {
+                    if bp == FUNGIBLE_PROOF_BLUEPRINT || bp == NON_FUNGIBLE_PROOF_BLUEPRINT {
+                        let _ = api.call_function(RESOURCE_PACKAGE, bp, PROOF_DROP_IDENT, scrypto_encode(&(Own(*id),)).unwrap());
+                    }
+                }
+                let owns: Vec<Own> = live.iter().filter(|(_, bp)| bp == FUNGIBLE_BUCKET_BLUEPRINT || bp == NON_FUNGIBLE_BUCKET_BLUEPRINT).map(|(id, _)| Own(*id)).collect();
+                return Ok(Flow::Return(scrypto_encode(&owns).unwrap()));
             }
         }
     }
